@@ -444,3 +444,5 @@ def check(ctx, rep):
     shared.own_namespace_lookups(ctx, rep, "C06.NS")
     from . import keyedrules
     keyedrules.order_bearing(ctx, rep, "C06.KEYED")
+    from .c01 import w_rule
+    w_rule(ctx, rep, "C06.COW", lambda h, t: h.family in ("sequence", "mapping", "set"))
